@@ -383,14 +383,21 @@ func (vm *VirtualMachine) eval(ctx context.Context) error {
 			vm.push(object.NewClosure(fn, free))
 		case op.MakeCell:
 			symbolIndex := vm.fetch()
-			framesBack := int(vm.fetch())
-			frameIndex := vm.fp - framesBack
-			if frameIndex < 0 {
-				return errz.EvalErrorf("eval error: no frame at depth %d", framesBack)
+			if vm.fetch() == 0 {
+				// A local variable of the active function
+				locals := vm.activeFrame.CaptureLocals()
+				vm.push(object.NewCell(&locals[symbolIndex]))
+			} else {
+				// A variable the active function captured itself: share its cell
+				var freeVars []*object.Cell
+				if fn := vm.activeFrame.fn; fn != nil {
+					freeVars = fn.FreeVars()
+				}
+				if int(symbolIndex) >= len(freeVars) {
+					return errz.EvalErrorf("eval error: no free variable at index %d", symbolIndex)
+				}
+				vm.push(freeVars[symbolIndex])
 			}
-			frame := &vm.frames[frameIndex]
-			locals := frame.CaptureLocals()
-			vm.push(object.NewCell(&locals[symbolIndex]))
 		case op.Nil:
 			vm.push(object.Nil)
 		case op.True:
